@@ -23,6 +23,7 @@ type C04Plan struct {
 	Swap      bool      `json:"swap"`
 	EmptySide string    `json:"empty_side,omitempty"` // "", "first", "second", "both"
 	Fault     *Fault    `json:"fault,omitempty"`      // one transient read error during the diff
+	DupEdge   string    `json:"dup_edge,omitempty"`   // "", "first", "second", "both": the CSV of that side repeats the lines at its block edges
 }
 
 func genRowEdits(r *Rand, cols []string, pk []string, nrows int, maxEdits int) []Edit {
@@ -115,6 +116,9 @@ func init() {
 			}
 			if r.Chance(0.15) {
 				p.Fault = &Fault{Op: "get", Prefix: Pick(r, []string{"blkidx/", "blkidx/", ""}), Nth: r.Range(1, 6)}
+			}
+			if p.Synth != nil && r.Chance(0.35) {
+				p.DupEdge = Pick(r, []string{"first", "second", "both"})
 			}
 			return p
 		},
@@ -238,12 +242,24 @@ func execC04(t *testing.T, raw json.RawMessage, res *Result) {
 	if p.TwoStores {
 		stB = NewStore("B", w)
 	}
-	sumA, err := ingestPlain(t, stA, cols, pk, rowsA)
+	inA, inB := rowsA, rowsB
+	if len(pk) > 0 {
+		if p.DupEdge == "first" || p.DupEdge == "both" {
+			inA = withEdgeDuplicates(cols, pk, rowsA)
+		}
+		if p.DupEdge == "second" || p.DupEdge == "both" {
+			inB = withEdgeDuplicates(cols, pk, rowsB)
+		}
+		if len(inA) != len(rowsA) || len(inB) != len(rowsB) {
+			res.probe("duplicate_lines_at_block_edges", 1)
+		}
+	}
+	sumA, err := ingestPlain(t, stA, cols, pk, inA)
 	if err != nil {
 		res.Invalid("ingest A: %v", err)
 		return
 	}
-	sumB, err := ingestPlain(t, stB, cols, pk, rowsB)
+	sumB, err := ingestPlain(t, stB, cols, pk, inB)
 	if err != nil {
 		res.Invalid("ingest B: %v", err)
 		return
